@@ -84,7 +84,7 @@ main(void)
 	unsigned ver = ND_U16();
 	int i, k;
 #ifdef NATIVE_REPLAY
-	memset(c, 0, sizeof *c);
+	NATIVE_FILL(c, sizeof *c);
 #endif
 	the = c;
 	for (k = 1; k <= 6; k ++) for (i = 0; i < 64; i ++) digest[k][i] = ND_U8();
